@@ -33,6 +33,7 @@ impl std::fmt::Debug for Spawned {
 thread_local! {
     static SPAWNED: RefCell<Option<Vec<Spawned>>> = const { RefCell::new(None) };
     static CLOCK_OFFSET: Cell<Duration> = const { Cell::new(Duration::ZERO) };
+    static CLOCK_FROZEN: Cell<Option<Instant>> = const { Cell::new(None) };
 }
 
 /// Start capturing tasks spawned by hyperdriver on this thread.
@@ -82,9 +83,16 @@ pub(crate) mod shim {
     }
 }
 
-/// Clock seam: the real clock plus a per-thread offset.
+/// Clock seam: the real clock (or this thread's frozen instant) plus a per-thread offset.
 pub fn now() -> Instant {
-    Instant::now() + CLOCK_OFFSET.with(|c| c.get())
+    CLOCK_FROZEN.with(|c| c.get()).unwrap_or_else(Instant::now) + CLOCK_OFFSET.with(|c| c.get())
+}
+
+/// Freeze this thread's pool clock at the current instant (offset reset to zero); only
+/// `advance_clock` moves it afterwards.
+pub fn freeze_clock() {
+    CLOCK_FROZEN.with(|c| c.set(Some(Instant::now())));
+    CLOCK_OFFSET.with(|c| c.set(Duration::ZERO));
 }
 
 /// Move this thread's pool clock forward.
@@ -95,6 +103,7 @@ pub fn advance_clock(by: Duration) {
 /// Reset this thread's pool clock offset.
 pub fn reset_clock() {
     CLOCK_OFFSET.with(|c| c.set(Duration::ZERO));
+    CLOCK_FROZEN.with(|c| c.set(None));
 }
 
 /// Address family preference, mirroring the crate-private use in the TCP transport.
